@@ -64,8 +64,13 @@ def gen_input_from(rng, TABLES, COLUMNS, QNAMES, benign):
             queries.append("-- name: %s :exec\nUPDATE %s SET %s = $1 WHERE %s = $2;" % (nm, q(t), q(c1), q(c2)))
         elif kind < 0.92:
             queries.append("-- name: %s :execrows\nDELETE FROM %s WHERE %s = ANY($1::%s);" % (nm, q(t), q(c1), rng.choice(["int[]", "uuid[]", "text[]"])))
-        else:
+        elif kind < 0.96:
             queries.append("-- name: %s :execresult\nDELETE FROM %s;" % (nm, q(t)))
+        else:
+            # a command that scans nothing, with a RETURNING list: the row struct is still emitted
+            queries.append("-- name: %s :%s\nUPDATE %s SET %s = $1 WHERE %s = $2 RETURNING %s;"
+                           % (nm, rng.choice(["exec", "execrows", "execresult"]), q(t), q(c1), q(c2),
+                              rng.choice(["*", ", ".join(q(c) for c in cs[:2]), q(c1)])))
     flags = [f for f in FLAGS if rng.random() < 0.35]
     files_split = benign and len(queries) > 1 and rng.random() < 0.4
     pkg = {"path": "db", "engine": "postgresql", "schema": "schema.sql", "queries": ["query.sql", "more.sql"] if files_split else "query.sql"}
@@ -89,10 +94,35 @@ def gen_input_from(rng, TABLES, COLUMNS, QNAMES, benign):
     return out
 
 
-HEADER = "From Verif Require Import Spec.GoPkgWf.\nOpen Scope string_scope. Open Scope list_scope.\n"
+HEADER = "From Verif Require Import Spec.GoPkgWf Judge.J01.\nOpen Scope string_scope. Open Scope list_scope.\n"
 WF_CLASS = {1: "duplicate_top_level_identifier", 2: "duplicate_method_or_field", 3: "qualifier_used_but_not_imported",
             4: "import_not_used", 5: "parameter_or_local_declared_twice", 6: "parameter_or_local_shadows_a_package",
             7: "parameter_or_local_declared_twice"}
+
+
+def gv_coq(v):
+    st = v.get("struct")
+    s = "None" if not st else "(Some (%s, %s))" % (coqstr(st["name"]), coqlist([coqstr(f["type"]) for f in st["fields"]]))
+    return "(mkGV %s %s %s %s)" % (coqbool(v["emit"]), coqstr(v["name"]), coqstr(v["typ"]), s)
+
+
+def importer_coq(r):
+    """the values golang.Generate hands to its templates and importer (hook golang.VerifGenerate) as a Model/GoImports.gimporter"""
+    structs = coqlist([coqlist([coqstr(f["type"]) for f in s["fields"]]) for s in r["structs"]])
+    qs = coqlist(["(mkGQ %s %s %s %s)" % (coqstr(x["cmd"]), coqstr(x["source"]), gv_coq(x["ret"]), gv_coq(x["arg"])) for x in r["queries"]])
+    ovs = coqlist(["(mkOV %s %s %s %s)" % (coqbool(o["basic"]), coqstr(o["type_name"]), coqstr(o["import_path"]), coqstr(o["package"])) for o in r["overrides"]])
+    return "(mkGI %s %d %s %s %s)" % (structs, r["n_enums"], qs, ovs, coqbool(r["prepared"]))
+
+
+def j01_coq(r):
+    fs = []
+    for key, groups in sorted(r["imports"].items()):
+        emitted = key if key.endswith(".go") else key + ".go"
+        summ = r["summary"].get(emitted, {})
+        std = coqlist([coqstr(p) for _, p in groups[0]])
+        pkg = coqlist(["(%s, %s)" % (coqstr(i), coqstr(p)) for i, p in groups[1]])
+        fs.append("(mkFO %s %s %s %s)" % (coqstr(key), std, pkg, coqlist([coqstr(x) for x in summ.get("qualifiers", [])])))
+    return "(j01 %s %s)" % (importer_coq(r), coqlist(fs))
 
 
 def pkg_coq(summary):
@@ -218,6 +248,28 @@ def run(tier, seed):
                                   dict(inputs[i], rule=wf), no_input=True)
             if p.returncode != 0 and not errs:
                 rep.violation("go build failed without attributable errors: " + p.stdout[-300:], {}, no_input=True)
+            # the import half: importer vs Model/GoImports, emitted qualifiers vs Spec/GoFileUses, needed = present
+            gres = run_harness([{"op": "gogen", "files": inputs[i]} for i in idxs])
+            gok = [(i, g) for i, g in zip(idxs, gres) if g.get("ok")]
+            for i, g in zip(idxs, gres):
+                if not g.get("ok"):
+                    rep.violation("golang.Generate run step by step (harness op gogen) fails where cmd.Generate succeeded: %s" % (g.get("err") or g.get("panic") or g.get("harness_error")),
+                                  dict(inputs[i]), no_input=True)
+            for (i, g), v in zip(gok, coq_eval(HEADER, [j01_coq(g) for _, g in gok], tag="c01imp")):
+                _, known, holds, diff = v
+                rep.count("imports:%s" % ("needed=present" if holds else "differ"))
+                if g["overrides"]:
+                    rep.count("imports:with-overrides")
+                view = {"importer": g["imports"], "qualifiers": {k: s_.get("qualifiers") for k, s_ in g["summary"].items()}}
+                if not holds:
+                    rep.violation("an emitted file's imports are not exactly the packages it mentions (Spec/GoFileUses vs Model/GoImports on the generator's own values)",
+                                  dict(inputs[i], **view), klass=WF_CLASS[3] if known == 1 else None)
+                elif diff & 1:
+                    rep.violation("correspondence corr:C01:imports broken: the importer (imports.go) and Model/GoImports.imports_of answer differently; needed = present still holds on this input",
+                                  dict(inputs[i], **view), no_input=True)
+                elif diff & 2:
+                    rep.violation("correspondence corr:C01:file_uses broken: the package qualifiers in an emitted file are not those Spec/GoFileUses reads off the templates",
+                                  dict(inputs[i], **view), no_input=True)
             rep.count("compiles", len(pk) - len(errs))
             rep.count("does-not-compile", len(errs))
     finally:
